@@ -5,4 +5,5 @@ INVARIANT SentinelsTotal
 INVARIANT CanonicalFixedPoint
 INVARIANT V2AcceptsIffCanonical
 INVARIANT ProjectionAccepted
+INVARIANT DecoderRefinesVector
 CHECK_DEADLOCK FALSE
